@@ -1,4 +1,76 @@
 import OdxVerif.Common.Sexp
-/-! driver stub for the pdx family (to be written) -/
-open OdxVerif
-def main : IO Unit := driverMain fun _ => "(not-implemented)"
+import OdxVerif.Model.Pdx
+/-! line-protocol driver for the PDX escaping model (property C11)
+
+  strings travel as `(cp n…)`: decimal Unicode code points, the empty string as `(cp)`
+  request : `(escape (cp …))`   → `(cp …)`                     -- markupsafe.escape
+            `(unescape (cp …))` → `(ok (cp …))` | `(err)`      -- reference decoding only
+            `(text (cp …))`     → `(ok (cp …))` | `(err)`      -- character data as an XML processor reports it
+            `(attr (cp …))`     → `(ok (cp …))` | `(err)`      -- double-quoted attribute value, normalised
+            `(load (f frag kind old ver (id obj)…) …)`  kind = dlc|subset|spec, old = t|f, ver = n
+                                → `(ok (dlcs frag…) (subsets frag…) (specs frag…) (version n) (links (frag id obj)…))` | `(err)`
+                                                                 -- Database._process_xml_tree per file + _build_odxlinks
+            `(dispatch pdx|files|dir suffix name)` → `odx` | `index` | `aux` | `pdx`   -- file-type dispatch of the entry points
+  anything else → `(bad-request)` -/
+open OdxVerif OdxVerif.Pdx
+
+def parseCp : Sexp → Option (List Nat)
+  | .list (.atom "cp" :: xs) => xs.mapM Sexp.asNat?
+  | _ => none
+
+def cpStr (s : List Nat) : String := "(" ++ " ".intercalate ("cp" :: s.map toString) ++ ")"
+
+def optStr : Option (List Nat) → String
+  | some s => s!"(ok {cpStr s})"
+  | none => "(err)"
+
+def parseFile : Sexp → Option File
+  | .list (.atom "f" :: .atom frag :: .atom kind :: .atom old :: ver :: ids) => do
+    let k ← if kind == "dlc" then some Kind.dlc else if kind == "subset" then some Kind.subset
+            else if kind == "spec" then some Kind.spec else none
+    let v ← ver.asNat?
+    let ids ← ids.mapM fun
+      | .list [.atom i, o] => do pure (i, ← o.asNat?)
+      | _ => none
+    pure ⟨frag, k, old == "t", v, ids⟩
+  | _ => none
+
+def fragsStr (tag : String) (fs : List File) : String := "(" ++ " ".intercalate (tag :: fs.map (·.frag)) ++ ")"
+
+/-- the effective ODXLINK map: every key with the object the last update left there, in first-insertion order -/
+def linksStr (db : Db) : String :=
+  let keys := (links db).map (·.1) |>.eraseDups
+  "(" ++ " ".intercalate ("links" :: keys.map fun k =>
+    s!"({k.1} {k.2} {(linkLookup db k).getD 0})") ++ ")"
+
+def handleLoad (fs : List Sexp) : String :=
+  match fs.mapM parseFile with
+  | none => "(bad-request)"
+  | some files =>
+    match processAll files with
+    | .error _ => "(err)"
+    | .ok db =>
+      let v := match db.version with | some n => toString n | none => "none"
+      s!"(ok {fragsStr "dlcs" db.dlcs} {fragsStr "subsets" db.subsets} {fragsStr "specs" db.specs} (version {v}) {linksStr db})"
+
+def handle (sx : Sexp) : String :=
+  match sx with
+  | .list (.atom "load" :: fs) => handleLoad fs
+  | .list [.atom "dispatch", .atom ep, .atom suffix, .atom name] =>
+    let ep? := if ep == "pdx" then some Entry.pdx else if ep == "files" then some Entry.files
+               else if ep == "dir" then some Entry.dir else none
+    match ep? with
+    | some e => (dispatch e (if suffix == "-" then "" else suffix) name).toStr
+    | none => "(bad-request)"
+  | .list [.atom op, arg] =>
+    match parseCp arg with
+    | some s =>
+      if op == "escape" then cpStr (escape s)
+      else if op == "unescape" then optStr (unescape s)
+      else if op == "text" then optStr (decodeText s)
+      else if op == "attr" then optStr (decodeAttr s)
+      else "(bad-request)"
+    | none => "(bad-request)"
+  | _ => "(bad-request)"
+
+def main : IO Unit := driverMain handle
